@@ -5,15 +5,36 @@
 EXTENDS IdbFile, Json, CSV, IOUtils
 
 DumpFile == IF "VERIF_DUMP" \in DOMAIN IOEnv THEN IOEnv.VERIF_DUMP ELSE ""
+InputFile == IF "VERIF_INPUT" \in DOMAIN IOEnv THEN IOEnv.VERIF_INPUT ELSE ""
+
+\* Real database files (written by interrogate -od) go through the same reader:
+\* VERIF_INPUT is a JSON array [{"name": ..., "bytes": [...]}, ...]; cfg IdbFile_ext uses ExtSpec.
+ExtInputs == IF InputFile = "" THEN <<>> ELSE JsonDeserialize(InputFile)
+ExtInit ==
+  \E j \in 1..Len(ExtInputs) :
+    /\ par = [a |-> 1, pre |-> "none", layout |-> ExtInputs[j].name]
+    /\ db = EmptyDb
+    /\ hdr = [NoHdr EXCEPT !.kind = "ext"] /\ cut = -1 /\ stream = ExtInputs[j].bytes
+    /\ pc = "header" /\ sec = 0 /\ left = 0 /\ st = StartPos
+    /\ fmaj = 0 /\ fmin = 0 /\ temp = EmptyTemp /\ glob = BaseGlob("none") /\ err = FALSE
+ExtSpec == ExtInit /\ [][ReadNext]_vars
+
+\* what interrogate wrote is well-formed, is read completely, and the reader step machine agrees with the
+\* one-shot reader function
+ExtReadable ==
+  /\ pc = "remap" => WellFormed(temp) /\ fmaj = CurrentMajor /\ fmin = CurrentMinor
+                     /\ LET r == ReadFile(stream) IN r.ok /\ Tables(r.db) = Tables(temp)
+  /\ pc = "done" => ~err
 
 GlobAsDb == [id |-> temp.id, lib |-> temp.lib, hash |-> temp.hash, mod |-> temp.mod] @@ Tables(glob)
 
 Rec ==
   [a |-> par.a, pre |-> par.pre, layout |-> par.layout, kind |-> hdr.kind, major |-> hdr.major, minor |-> hdr.minor,
    defid |-> hdr.defid, first |-> hdr.first, next |-> hdr.next, nrec |-> NumRecs(db),
-   cut |-> cut, content |-> RemovesContent, file |-> stream,
-   err |-> err, merged |-> (Tables(glob) # BaseTables \/ NumRecs(db) = 0),
+   cut |-> cut, content |-> (hdr.kind # "ext" /\ RemovesContent), file |-> IF hdr.kind = "ext" THEN <<>> ELSE stream,
+   err |-> err, gnext |-> glob.next,
    glob |-> Tables(glob), hdrs |-> [id |-> temp.id, lib |-> temp.lib, hash |-> temp.hash, mod |-> temp.mod],
+   full |-> IF hdr.kind # "ext" /\ cut # -1 /\ ~RemovesContent THEN FileBytes ELSE <<>>,
    rw |-> IF err THEN <<>> ELSE WriteDb(GlobAsDb, 3)]
 
 DumpConstraint ==
